@@ -509,3 +509,83 @@ func c16Random(cmd string, pop bool) {
 
 func Verif_C16_SPop()        { c16Random("SPOP", true) }
 func Verif_C16_SRandMember() { c16Random("SRANDMEMBER", false) }
+
+// ---- three operands (the third possibly the same key as the second) ----
+//
+// SUNION / SINTER / SDIFF and their STORE forms over base, s1, s2 with members that may be shared
+// between any of the operands (a base member subtracted twice, a member present in all three): the
+// reply and the stored destination - its members *and* its cardinality - are those of the reference
+// algebra folded over the operands, and the operands are unchanged.
+func c16Three(op string, store bool) {
+	s := verifServer()
+	k1, k2 := vr.Tok("k1"), vr.Tok("k2")
+	vr.Assume(k1 != k2)
+	p1 := c16Preset(s, k1, "a", 2)
+	p2 := c16Preset(s, k2, "b", 2)
+	k3, p3 := k2, p2
+	if vr.Choose("third_is_second", 2) == 0 {
+		k3 = vr.Tok("k3")
+		vr.Assume(k3 != k1 && k3 != k2)
+		p3 = c16Pre{kind: vr.Choose("c_kind", 2)}
+		if p3.kind == kSet {
+			if vr.Choose("c_n", 2) == 1 {
+				p3.members = []string{vr.Tok("c_m0")}
+			}
+			verifPreset(s, 0, k3, set.NewSet(append([]string{}, p3.members...)))
+		}
+	}
+	if op == "SDIFF" {
+		vr.Assume(p1.kind == kSet) // an absent base set is an error in the repository: covered by the two-operand harness
+	}
+	var want []string
+	switch op {
+	case "SUNION":
+		want = refUnion(refUnion(p1.members, p2.members), p3.members)
+	case "SINTER":
+		want = refInter(refInter(p1.members, p2.members), p3.members)
+	case "SDIFF":
+		want = refDiff(refDiff(p1.members, p2.members), p3.members)
+	}
+	var reply []byte
+	var err error
+	var panicked bool
+	dst := ""
+	if store {
+		dst = vr.Tok("dst")
+		vr.Assume(dst != k1 && dst != k2 && dst != k3)
+		reply, err, panicked = verifRun(s, op+"STORE", dst, k1, k2, k3)
+	} else {
+		reply, err, panicked = verifRun(s, op, k1, k2, k3)
+	}
+	ob := "C16." + op + "_three"
+	vr.Assert(!panicked, ob+".nopanic")
+	if panicked {
+		return
+	}
+	vr.Assert(err == nil, ob+".noerror")
+	if err != nil {
+		return
+	}
+	if store {
+		vr.Assert(isIntReply(reply, len(want)), ob+".card_reply")
+		if len(want) == 0 {
+			e, ok := s.store[0][dst]
+			st, is := e.Value.(*set.Set)
+			vr.Assert(!ok || (is && st.Cardinality() == 0 && len(st.GetAll()) == 0), ob+".store_empty")
+		} else {
+			c16Holds(s, dst, c16Pre{kind: kSet, members: want}, ob+".store_post")
+		}
+	} else {
+		r, ok := arrayReply(reply)
+		vr.Assert(ok && matchStrs(r.Elems, want), ob+".members")
+	}
+	c16Holds(s, k1, p1, ob+".operand_unchanged")
+	c16Holds(s, k2, p2, ob+".operand_unchanged")
+	c16Holds(s, k3, p3, ob+".operand_unchanged")
+	vr.Reach("end")
+}
+
+func Verif_C16_SUnionThree()     { c16Three("SUNION", vr.Choose("store", 2) == 1) }
+func Verif_C16_SInterThree()     { c16Three("SINTER", vr.Choose("store", 2) == 1) }
+func Verif_C16_SDiffThree()      { c16Three("SDIFF", false) }
+func Verif_C16_SDiffStoreThree() { c16Three("SDIFF", true) }
